@@ -80,7 +80,8 @@ func request(e *cpuEnv, k int) {
 
 // runControl executes the case in lock-step. which = "C04" or "C05" (signature prefix only).
 func (e *cpuEnv) runControl(l *explore.Local, c ctlCase) *explore.Fail {
-	// machine setup
+	// machine setup (a preceding case may have been pruned half-way: drop its pending reference writes)
+	e.log = e.log[:0]
 	for i := 0; i < 24; i++ {
 		b := uint8(0)
 		if i < len(c.Code) {
